@@ -1,5 +1,6 @@
 import Sebuf.Build
 import Sebuf.Lemmas.Ident
+import Sebuf.Lemmas.PropsC13
 /-!
 # C13 — everything the generators emit builds: Go compiles and vets, TypeScript loads
 
@@ -24,13 +25,6 @@ def CodecShapeOK (m : Message) (withUnwrap : Bool) : Prop :=
   (∀ f ∈ m.fields, isBytesEnc f = true → f.card ≠ .repeated) ∧
   (marshalFeatures m withUnwrap).length ≤ 1 ∧
   needsOneofMarshal m = false
-
-theorem any_false_of {α} (l : List α) (p : α → Bool) (h : ∀ x ∈ l, p x = false) : l.any p = false := by
-  induction l with
-  | nil => rfl
-  | cons a t ih =>
-    simp only [List.any_cons, Bool.or_eq_false_iff]
-    exact ⟨h a List.mem_cons_self, ih fun x hx => h x (List.mem_cons_of_mem _ hx)⟩
 
 /-- **access typing, partial**: when every assumption of the codec templates holds for a message,
 the model predicts no codec defect for it. -/
@@ -68,18 +62,26 @@ theorem one_marshaler_partial (m : Message) (b : Bool) (h : (marshalFeatures m b
 def mk1 (name : String) (fs : List Field) : Message := { fullName := (".p." ++ name).toList, name := name.toList, fields := fs }
 def rq1 (m : Message) : Request := { files := [{ name := "a.proto".toList, generate := true, messages := [m] }] }
 
+/-- witness for finding `optional_int64_number`: an `optional int64` field with NUMBER encoding is
+accepted by go-http and the discipline predicts the defect for go-http's package. -/
 theorem w_optional_int64_number :
     let m := mk1 "M" [{ name := "big".toList, kind := .int64, card := .optional, int64Enc := 2 }]
     runGoHttp (rq1 m) = none ∧ "optional_int64_number" ∈ goDefects (rq1 m) "go-http" := by decide
 
+/-- witness for finding `repeated_timestamp_format`: a `repeated Timestamp` field with a format is
+accepted and the discipline predicts the defect for go-client's package. -/
 theorem w_repeated_timestamp_format :
     let m := mk1 "M" [{ name := "at".toList, kind := .message, typeName := ".google.protobuf.Timestamp".toList, card := .repeated, tsFormat := 2 }]
     runGoHttp (rq1 m) = none ∧ "repeated_timestamp_format" ∈ goDefects (rq1 m) "go-client" := by decide
 
+/-- witness for finding `repeated_bytes_encoding`: a `repeated bytes` field with an encoding is
+accepted and the discipline predicts the defect when both Go plugins emit into one package. -/
 theorem w_repeated_bytes_encoding :
     let m := mk1 "M" [{ name := "blob".toList, kind := .bytes, card := .repeated, bytesEnc := 5 }]
     runGoHttp (rq1 m) = none ∧ "repeated_bytes_encoding" ∈ goDefects (rq1 m) "both" := by decide
 
+/-- witness for finding `two_marshaljson_methods`: two MarshalJSON-producing features on one message
+are accepted by both Go plugins and the discipline predicts the duplicate method. -/
 theorem w_two_marshaljson :
     let m := mk1 "M" [{ name := "big".toList, kind := .int64, int64Enc := 2 }, { name := "maybe".toList, kind := .string, card := .optional, nullable := true }]
     runGoHttp (rq1 m) = none ∧ runGoClient (rq1 m) = none ∧ "two_marshaljson_methods" ∈ goDefects (rq1 m) "go-http" := by decide
@@ -95,9 +97,13 @@ def oneofFile : File :=
     messages := [oneofMsg, mk1 "T" [{ name := "body".toList, kind := .string }]] }
 def oneofRq : Request := { files := [oneofFile] }
 
+/-- witness for finding `oneof_errorf_vet`: an annotated oneof is accepted by go-http and the
+discipline predicts the `go vet` diagnostic for go-http's package. -/
 theorem w_oneof_errorf_vet :
     runGoHttp oneofRq = none ∧ "oneof_errorf_vet" ∈ goDefects oneofRq "go-http" := by decide
 
+/-- witness for finding `unwrap_unused_import`: an `unwrap` on a repeated scalar field is accepted; the
+discipline predicts the defect for go-http's package and none for go-client's. -/
 theorem w_unwrap_unused_import :
     let m := mk1 "L" [{ name := "items".toList, kind := .string, card := .repeated, unwrap := true }]
     runGoHttp (rq1 m) = none ∧ "unwrap_unused_import" ∈ goDefects (rq1 m) "go-http" ∧ goDefects (rq1 m) "go-client" = [] := by decide
@@ -139,12 +145,13 @@ def hdrFile : File :=
     generate := true
     messages := [getReq]
     services := [hdrSvc] }
+/-- witness for finding `header_helper_redeclared`: the same header declared on the service and on a
+method; the discipline predicts the defect for go-client's package and none for go-http's. -/
 theorem w_header_helper_redeclared :
     "header_helper_redeclared" ∈ goDefects { files := [hdrFile] } "go-client" ∧ goDefects { files := [hdrFile] } "go-http" = [] := by decide
 
 /-- header names that differ only by the `X-` prefix collide as well. -/
 theorem header_func_name_not_injective : headerNameToFuncName "X-Api-Key".toList = headerNameToFuncName "Api-Key".toList := by decide
-
 
 /-- **identifier agreement, partial**: on plain snake_case names (`^[a-z]+(_[a-z]+)*$`) the Go
 client's spelling of a path variable's field is the one protoc-gen-go gives the struct field,
